@@ -4,6 +4,7 @@ values, no memo).  Oracle 2 (thorough and quick): AST-level expansion of non-rec
 templates compiled by sourcer itself.  DESIGN.md 4/C06."""
 import re
 import sys
+import time
 
 from vlib import runner, peg, gens, gens_rich, sut, shrink, diff, expand
 from vlib.runner import Check, Result, h64
@@ -16,6 +17,35 @@ def nontrivial(ev):
 def has_call(g, name):
     sub = diff.reachable_subgrammar(g, name)
     return any(x[0] == 'call' for r in sub.rules for e in peg.rule_exprs(r) for x in peg.walk(e))
+
+
+# "recursively": a template that instantiates itself with an argument computed from its own parameter, as
+# deep as the input asks for (the expansion is infinite, the value is known in closed form)
+DEEP_RECURSION = [
+    ('N(d) = "1" >> N(`d + 1`) << "2" | `d`\nstart = N(`0`)', False),
+    ('N(d) = "1" >> N(d=`d + 1`) << "2" | `d`\nstart = N(d=`0`)', False),
+    ('N(d) = "1" >> N(`d + 1`) << "2" | `d`\nstart = N(`0`)', True),
+    ('N(p, d) = "1" >> N(p, `d + 1`) << "2" | [p, `d`]\nstart = N("x", `0`)', False),
+]
+
+
+def deep_case(i, depth):
+    desc, named = DEEP_RECURSION[i]
+    name = sut.fresh_name('vfc06d_') if named else None
+    try:
+        mod, err = sut.compile_grammar(('grammar %s\n' % name if named else '') + desc)
+        if mod is None:
+            return {'bucket': 'deep-recursion:compile', 'got': list(err)}
+        text = '1' * depth + ('x' if i == 3 else '') + '2' * depth
+        got = sut.run(mod, None, text, budget=120.0)
+        want = ('OK', peg.canon(['x', depth] if i == 3 else depth), len(text))
+        if got == want:
+            return None
+        return {'bucket': 'deep-recursion:%s' % (got[0] if got[0] != 'EXC' else 'EXC:' + got[1]), 'grammar': desc, 'named': named,
+                'depth': depth, 'got': [str(x)[:100] for x in got], 'expected': list(want)}
+    finally:
+        if name:
+            sut.forget(name)
 
 
 class C06(Check):
@@ -37,11 +67,19 @@ class C06(Check):
     def tasks(self, tier, seed):
         n = 16 if tier == 'quick' else 64
         per = 40 if tier == 'quick' else 300
-        return [('hyp', seed * 1000003 + s, per) for s in range(n)]
+        deep = [('deep', i, 2000 if tier == 'quick' else 20000) for i in range(len(DEEP_RECURSION))]
+        return [('hyp', seed * 1000003 + s, per) for s in range(n)] + deep
 
     def run_task(self, task):
         from hypothesis import given, settings, seed, HealthCheck, Phase, strategies as st
         res = Result()
+        if task[0] == 'deep':
+            _, i, depth = task
+            res.evals += 1
+            res.nontrivial.add(h64('deep', i, depth))
+            if deep_case(i, depth) is not None:
+                res.mismatch({'deep': i, 'depth': depth})
+            return res
         _, s, n = task
 
         @seed(s)
@@ -106,6 +144,8 @@ class C06(Check):
                         return
 
     def replay(self, case):
+        if 'deep' in case:
+            return deep_case(case['deep'], case['depth'])
         if case.get('oracle') == 'expansion':
             g = peg.g_from_dict(case['g'])
             try:
@@ -150,6 +190,16 @@ class C06(Check):
         return m
 
     def shrink(self, case, still_fails, deadline):
+        if 'deep' in case:
+            lo, hi = 1, case['depth']          # smallest depth that still fails
+            while lo < hi and time.time() < deadline:
+                mid = (lo + hi) // 2
+                if still_fails(dict(case, depth=mid)):
+                    hi = mid
+                else:
+                    lo = mid + 1
+            return dict(case, depth=hi)
+
         def ok(c):
             g = peg.g_from_dict(c['g'])
             return c['entry'] in g.ruledict() and diff.wellformed(g) and still_fails(c)
@@ -164,6 +214,9 @@ class C06(Check):
         return shrink.shrink_case(c0, ok, deadline)
 
     def describe(self, case):
+        if 'deep' in case:
+            return {'grammar': DEEP_RECURSION[case['deep']][0], 'named': DEEP_RECURSION[case['deep']][1],
+                    'input': "'1' * %d + '2' * %d" % (case['depth'], case['depth'])}
         g = peg.g_from_dict(case['g'])
         return {'grammar': peg.render(g), 'entry': case['entry'], 'input': repr(case.get('text')),
                 'oracle': case.get('oracle', 'reference')}
